@@ -80,7 +80,7 @@ class C16(PropBase):
     coq_imports = "Graph.MixedGraph Graph.LatentDag Corr.C16"
     budgets = {"quick": 900, "thorough": 9000}
     rule = ("(a) random ADMGs (2..6 nodes, with isolated nodes) through to_latent_variable_dag and back; (b) random DAGs on 3..7 nodes with a random "
-            "subset tagged latent (latents with parents, 0/1/many children, chains of latents, duplicated child sets) through simplify_latent_dag and "
+            "subset tagged latent (latents with parents, 0/1/many children, duplicated child sets), and a family built around a directed chain of 3..4 latents with observed nodes hanging off it, through simplify_latent_dag and "
             "from_latent_variable_dag. Non-trivial: (a) graph has a bidirected edge or an isolated node, (b) at least one latent has a parent or the "
             "simplification removes a node; distinct by input")
     explanation = ("round trip proved for every well-formed ADMG; simplification model checked on every case against y0 and, inside Coq, against "
@@ -102,6 +102,29 @@ class C16(PropBase):
         while len(cases) < n:
             if rng.random() < 0.3:
                 cases.append({"kind": "round", "g": GG.rand_admg(rng, 2, 6)})
+            elif rng.random() < 0.3:
+                # a directed chain of 3..4 latents with observed nodes hanging off it (the bypass edges of rule 2 between two latents matter)
+                m = rng.randint(3, 4)
+                nobs = rng.randint(2, 4)
+                chain = [2 * i for i in range(m)]
+                obs = [2 * (m + i) for i in range(nobs)]
+                edges = [[chain[i], chain[i + 1]] for i in range(m - 1)]
+                edges.append([chain[0], rng.choice(obs)])
+                edges.append([chain[-1], rng.choice(obs)])
+                for l in chain:
+                    for o in obs:
+                        if rng.random() < 0.2 and [l, o] not in edges:
+                            edges.append([l, o])
+                for i in range(nobs):
+                    for j in range(i + 1, nobs):
+                        if rng.random() < 0.3:
+                            edges.append([obs[i], obs[j]])
+                if rng.random() < 0.4:
+                    edges.append([rng.choice(obs[:1]), chain[0]])
+                    edges = [e for e in edges if not (e[0] in chain and e[1] == obs[0])]
+                rng.shuffle(edges)
+                nodes = chain + obs; rng.shuffle(nodes)
+                cases.append({"kind": "simp", "d": {"nodes": nodes, "edges": edges, "lat": list(chain)}})
             else:
                 k = rng.randint(3, 6 if tier == "quick" else 7)
                 order = list(range(k)); rng.shuffle(order)
